@@ -289,7 +289,9 @@ theorem c06_run_vote_returns (cfg : Cfg) (voters : List Voter) (hne : voters ≠
     intro h; exact hne (List.length_eq_zero_iff.mp h)
   simp [this]
 
-/-- The constants read from the current source are in the range the theorems above rely on: default thresholds
+/-- Every constant was established from the current code (`extractionComplete`: by evaluation, by reading the
+    expression that feeds the likelihood and evaluating its leaves, by measuring the Bayesian aggregator on probes),
+    and the constants are in the range the theorems above rely on: default thresholds
     in [0,1) and at least the documented shares (">50%", ">66%"), uniform positive priors, likelihood centred at ½
     with positive gain, fallback posterior in [0,1]; and the default criteria are attainable (so unanimity applies
     to every default configuration). -/
@@ -299,17 +301,12 @@ theorem c06_constants_table :
     priorPermit = priorBlock ∧ 0 < priorPermit ∧ 0 ≤ posteriorFallback ∧ posteriorFallback ≤ 1 ∧
     majorityThreshold ≤ 1 / 2 ∧ 0 ≤ confidenceMin ∧ confidenceMin ≤ 1 ∧
     1 / 2 ≤ majorityThreshold ∧ 66 / 100 ≤ supermajorityThreshold ∧
-    (∀ s n, Attainable ⟨s, none, 1⟩ n) := by
+    (∀ s n, Attainable ⟨s, none, 1⟩ n) ∧ extractionComplete = true := by
   refine ⟨const_facts.1, const_facts.2.1, const_facts.2.2.1, const_facts.2.2.2.1, const_facts.2.2.2.2.1,
     const_facts.2.2.2.2.2.1, const_facts.2.2.2.2.2.2.1, const_facts.2.2.2.2.2.2.2.1,
     const_facts.2.2.2.2.2.2.2.2.1, const_facts.2.2.2.2.2.2.2.2.2.1, const_facts.2.2.2.2.2.2.2.2.2.2.1,
-    const_facts.2.2.2.2.2.2.2.2.2.2.2, by decide +kernel, by decide +kernel, by decide +kernel, by decide +kernel,
-    by decide +kernel, ?_⟩
-  intro s n
-  have h1 : majorityThreshold < 1 := const_facts.2.1
-  have h2 : supermajorityThreshold < 1 := const_facts.2.2.2.1
-  have h3 : majorityThreshold ≤ 1 / 2 := by decide +kernel
-  cases s <;> simp only [Attainable, effThreshold] <;> first | exact h1 | exact h2 | exact h3
+    const_facts.2.2.2.2.2.2.2.2.2.2.2, const_more.1, by decide +kernel, const_more.2.2, const_more.2.1,
+    by decide +kernel, default_attainable, by decide +kernel⟩
 
 /-- Readable instances of the criterion for the default configurations: MAJORITY is reached exactly when there are
     enough active votes and strictly more permits than blocks; the default count strategy exactly when permits are a
@@ -323,7 +320,7 @@ theorem c06_default_criteria_in_counts (minVoters : Nat) (voters : List Voter) :
     ((runVote ⟨.unanimous, none, minVoters⟩ voters).reached = true ↔
       minVoters ≤ nP (collect voters) + nB (collect voters) ∧ nB (collect voters) = 0 ∧ 0 < nP (collect voters)) := by
   have hmaj : majorityThreshold = 1 / 2 :=
-    le_antisymm c06_constants_table.2.2.2.2.2.2.2.2.2.2.2.2.1 c06_constants_table.2.2.2.2.2.2.2.2.2.2.2.2.2.2.2.1
+    le_antisymm const_more.1 const_more.2.1
   have hnn : ∀ s, NonNegThreshold ⟨s, none, minVoters⟩ := by intro s t h; cases h
   refine ⟨?_, ?_, ?_⟩
   · rw [run_reached_iff]
@@ -372,12 +369,12 @@ theorem c06_real_voters_permit_safe (s : Strategy) (minVoters budget n : Nat) (h
   have hlen := bioVoters_length .safe budget n
   have hne : bioVoters .safe budget n ≠ [] := by
     intro h; rw [h] at hlen; simp at hlen; omega
-  have hcm : confidenceMin ≤ 1 := c06_constants_table.2.2.2.2.2.2.2.2.2.2.2.2.2.2.1
+  have hcm : confidenceMin ≤ 1 := const_more.2.2
   refine (c06_unanimous_permit_is_permit _ _ hne ?_ (by rw [hlen]; exact hm) ?_ ?_ ?_).2
   · intro v hv; rw [hall v hv]; decide
   · intro v hv; rw [hall v hv]
     exact ⟨by show (0 : Rat) ≤ 1; decide +kernel, by show (0 : Rat) ≤ 1; decide +kernel, by intro c h; cases h⟩
-  · have := c06_constants_table.2.2.2.2.2.2.2.2.2.2.2.2.2.2.2.2.2 s (bioVoters .safe budget n).length
+  · have := default_attainable s (bioVoters .safe budget n).length
     unfold Attainable at this ⊢
     exact this
   · obtain ⟨v, hv⟩ := List.exists_mem_of_ne_nil _ hne
